@@ -390,7 +390,21 @@ def binary_op_rule(m, rid):
         ("defined_binary_op", "a .and. b", True, X, None),
         ("defined_binary_op", "a .x. b .y. c", True, X, ("a .x. b", ".Y.", "c")),
         ("and_op", "abc", True, None, None),
+        # an operand class that refuses its text makes the whole match fail (NoMatchError travels up): the engine does not look for
+        # another place to split, which would ignore the level's operator exclusion
+        ("defined_binary_op", "a .or. b .and. .inv. c", True, X, "raises NoMatchError"),
+        ("defined_binary_op", ".not. a .eq. .inv. b", True, X, "raises NoMatchError"),
+        ("and_op", "a .and. .not.", True, None, "raises NoMatchError"),
     ]
+
+    def strict(tag):
+        def make(text, *a, **k):
+            t = text.strip()
+            if re.search(r"[.]\s*[a-z]+\s*[.]$", t, re.I) and not re.search(r"[.](true|false)[.]$", t, re.I) or t[-1:] in "+-*/" or not t:
+                raise PE.PyRaise("NoMatchError", "%s: %r" % (tag, text))
+            return Node(tag, text)
+        return make
+    L, R = strict("L"), strict("R")
     for op, text, right, excl, want in cases:
         r.instances += 1
         if op in pats:
@@ -405,7 +419,8 @@ def binary_op_rule(m, rid):
             kw["exclude_op_pattern"] = pobj(excl)
         got = run(ev, f, [L, opv, R, text], kw)
         if isinstance(got, PE.PyRaise):
-            ok, shown = False, "raises %s" % got.exc_type
+            shown = "raises %s" % got.exc_type
+            ok = shown == want
         elif got is None:
             ok, shown = want is None, None
         else:
